@@ -170,5 +170,6 @@ type ProcResult struct {
 	Samples     []RunRec       `json:"samples,omitempty"`
 	Error       string         `json:"error,omitempty"` // machinery problem
 	CallsUsed   int            `json:"calls_used"`
+	UsedCalls   []int32        `json:"used_calls,omitempty"` // corpus ids that occurred in this process's runs
 	OutputBytes int64          `json:"output_bytes"`
 }
